@@ -41,7 +41,8 @@ def check_concat(repo: Repo, rep: Report):
         comps = [n for n in body_walk(f.node) if isinstance(n, (ast.GeneratorExp, ast.ListComp))]
         problems = []
         if len(loops) + len(comps) != 1:
-            raise AnalysisError(f"{f.qualname}: expected exactly one loop/comprehension, found {len(loops) + len(comps)}")
+            rep.bad("C06.concat", f.qualname, "not-plain-concatenation", f"{f.qualname} contains {len(loops) + len(comps)} loops/comprehensions: the serialised form is computed, not the plain concatenation of the opcodes' retained bytes (e.g. lengths or frames are rewritten on the way out)", f.file, f.line)
+            continue
         if loops:
             lp = loops[0]
             it, var = lp.iter, lp.target
@@ -320,6 +321,15 @@ def check_make_stream(repo: Repo, rep: Report):
         )
     if not unb:
         rep.ok("C06.bounded-read", f.qualname, "make_stream performs no unbounded read of the caller's stream", f"{f.file}:{f.line}")
+    # chunked buffering must stop on an *empty* read: a short read is legal for pipes/sockets/raw streams
+    reads = [n for n in body_walk(f.node) if isinstance(n, ast.Assign) and isinstance(n.value, ast.Call) and isinstance(n.value.func, ast.Attribute) and n.value.func.attr in ("read", "read1", "readinto") and n.value.args and isinstance(n.targets[0], ast.Name)]
+    for r in reads:
+        var = r.targets[0].id
+        for n in body_walk(f.node):
+            if isinstance(n, (ast.If, ast.While)):
+                for c in ast.walk(n.test):
+                    if isinstance(c, ast.Compare) and len(c.ops) == 1 and isinstance(c.ops[0], (ast.Lt, ast.LtE, ast.NotEq)) and isinstance(c.left, ast.Call) and dotted(c.left.func) == "len" and c.left.args and dotted(c.left.args[0]) == var and not (isinstance(c.comparators[0], ast.Constant) and c.comparators[0].value in (0, 1)):
+                        rep.bad("C06.bounded-read", f.qualname, "short-read-as-eof", f"`{src(n.test)}` (line {n.lineno}) treats a read shorter than requested as end of stream: unbuffered pipes, sockets and raw streams return short reads before EOF, so the buffered copy is truncated (a complete pickle fails to parse, or later stacked pickles are silently dropped)", f.file, n.lineno)
     # bytes-like input is wrapped, seekable streams are returned as they are
     rets = [n.value for n in body_walk(f.node) if isinstance(n, ast.Return)]
     if rets and all(dotted(r) in f.params() for r in rets):
